@@ -60,11 +60,12 @@ def gen(rng, tier):
         if rng.random() < 0.08 and pos:
             p = list(rng.choice(pos))            # exact duplicate row
         pos.append(p)
-    weights = None if rng.random() < 0.4 else [float(ft(rng.choice([1.0, 2.0, 0.0, rng.random()]) + i * 1e-3))
+    weights = None if rng.random() < 0.4 else [rng.choice([1.0, 2.0, 0.0, rng.random()]) + i * 1e-3 + 1e-9 * (i % 7)
                                                 for i in range(N)]
     return {'pos': pos, 'weights': weights, 'npartition': npart, 'box': box, 'coord': coord, 'dtype': dtype,
             'sort': rng.random() < 0.4, 'nthread': rng.choice([1, 2, 3, 4, 5, 7, 8, 16, 16]),
-            'sched': gen_sched(rng), 'compiled': rng.random() < 0.2}
+            'sched': gen_sched(rng), 'compiled': rng.random() < 0.2,
+            'wdtype': rng.choice([dtype, dtype, 'f4', 'f8'])}
 
 
 def _oracle(out, site, case, pos, weights, res):
@@ -83,6 +84,9 @@ def _oracle(out, site, case, pos, weights, res):
         return
     if (weights is None) != (wsort is None):
         violation(out, 'weights-presence', site, 'wpart is %s' % ('None' if wsort is None else 'array'))
+        return
+    if weights is not None and (np.asarray(wsort).dtype != weights.dtype or np.asarray(wsort).shape != weights.shape):
+        violation(out, 'weights-dtype-changed', site, 'weights %s -> wpart %s' % (weights.dtype, np.asarray(wsort).dtype))
         return
     if starts.shape != (npart + 1,):
         violation(out, 'bad-starts', site, 'shape %s' % (starts.shape,))
@@ -135,7 +139,7 @@ def run(case):
     out = new_outcome()
     ft = _f(case['dtype'])
     pos = np.array(case['pos'], dtype=ft).reshape(-1, 3)
-    weights = None if case['weights'] is None else np.array(case['weights'], dtype=ft)
+    weights = None if case['weights'] is None else np.array(case['weights'], dtype=_f(case.get('wdtype', case['dtype'])))
     N = len(pos)
     s = case['sched']
     results = {}
@@ -213,7 +217,7 @@ def pin(case):
     from e1_threads import harness as H
     ft = _f(case['dtype'])
     pos = np.array(case['pos'], dtype=ft).reshape(-1, 3)
-    weights = None if case['weights'] is None else np.array(case['weights'], dtype=ft)
+    weights = None if case['weights'] is None else np.array(case['weights'], dtype=_f(case.get('wdtype', case['dtype'])))
     return H.pin_with(lambda c: H.run(lambda: tsc.partition_parallel(pos.copy(), c['npartition'], c['box'],
                                                                      weights=None if weights is None else weights.copy(),
                                                                      coord=c['coord'], nthread=c['nthread'], sort=c['sort']),
